@@ -122,6 +122,7 @@ type HistoryParams struct {
 	Policies       []string
 	CloudFail      bool
 	Phrases        int // percentage of generation steps that emit a multi-op phrase (default 35)
+	FaultPct       int // percentage of histories in which one API-server call of galaxy-ipam fails (error, no effect)
 }
 
 var DefaultWeights = map[string]int{
@@ -417,6 +418,11 @@ func GenHistory(t *rapid.T, hp *HistoryParams) Case {
 	}
 	if hp.EndQuiesce {
 		c.Ops = append(c.Ops, Op{K: "quiesce"})
+	}
+	if hp.FaultPct > 0 && rapid.IntRange(0, 99).Draw(t, "faulty") < hp.FaultPct && len(c.Ops) > 0 {
+		c.FaultAt = &FaultAt{Op: rapid.IntRange(0, len(c.Ops)-1).Draw(t, "faultOp"), Fault: Fault{
+			K: rapid.IntRange(1, 8).Draw(t, "faultK"), Mode: "error",
+			Err: rapid.SampledFrom([]string{"internal", "conflict", "timeout"}).Draw(t, "faultErr")}} // NotFound for an object that exists would be a lie of the API server, not a failure
 	}
 	if c.Cloud && hp.CloudFail {
 		nf := rapid.IntRange(0, 2).Draw(t, "nCloudFail")
